@@ -443,6 +443,14 @@ add("e3_k8_from_reader", "", overlay="e3",
     desc="yaml::encoding::Encoder::from_reader from the library crate's MIR: the detector is given prefix.unread() where the prefix buffer was filled by io::copy(reader.by_ref().take(DETECT_LEN)) - io::copy loops until Take is exhausted, so four bytes are seen for EVERY windowing of the source - and Encoder::new gets prefix.chain(reader) with the detected encoding; a copy failure is returned as Err",
     bounds="all paths of from_reader (data-flow of the four observable calls)", functions=["yaml::encoding::Encoder::from_reader"],
     props=["C07", "C02", "C09"], timeout=300, mem_gb=4, assumptions=K_ASM[:1] + ["documented contract of std::io::copy / Read::take / Read::chain"])
+add("e3_k16_yaml_binding", "", overlay="e3",
+    desc="the libyaml binding's glue from the library crate's MIR. K16 Parser::new: yaml_parser_initialize -> result checked (panic, parser untouched) -> yaml_parser_set_encoding(YAML_UTF8_ENCODING) -> yaml_parser_set_input(read_handler, boxed read state holding the caller's reader, empty error stash), all on the one parser the returned value owns. K17 ParserError::new copies problem/context text and marks (problem_offset as fall-back for the problem only), LocatedError::from_parts computes line+1, column+1 and offset = index or the fall-back, and both Display impls render exactly '<text> at line L column C' / '<text> at position N' and '<problem>[, <context>]' with no other dependence on the data. K18 Parser::next_event: Ok passes through; on failure the io::Error stashed by the read handler is taken and returned, else io::Error::new(InvalidData, ParserError). K19: an Event exists iff yaml_parser_parse reported success (assume_init only then), Event::drop deletes its event once, Parser::drop deletes the parser and then frees the read state, once each",
+    bounds="every path of Parser::new, ParserError::new (+closures), LocatedError::from_parts, 2 Display::fmt, Parser::next_event (+closures), Event::parse_next, Event::drop, Parser::drop; struct layouts of yaml_parser_t / yaml_mark_t read from the unsafe-libyaml sources; integers mathematical (line/column + 1 does not wrap)",
+    functions=["yaml::chunker::parser::Parser::new", "yaml::chunker::parser::ParserError::new", "yaml::chunker::parser::LocatedError::from_parts", "<ParserError as Display>::fmt", "<LocatedError as Display>::fmt",
+               "yaml::chunker::parser::Parser::next_event", "yaml::chunker::parser::Event::parse_next", "<Event as Drop>::drop", "<Parser as Drop>::drop"],
+    props=["C04", "C17", "C11", "C12"], thorough_props=["C02", "C03", "C09"], timeout=300, mem_gb=4,
+    assumptions=K_ASM[:1] + ["libyaml calls (yaml_parser_*, yaml_event_delete), Box::{new,into_raw,from_raw}, MaybeUninit::{uninit,as_mut_ptr,assume_init}, CStr::from_ptr, to_string_lossy are uninterpreted; references and pointer casts are transparent",
+                             "rustc's compact fmt::Arguments template encoding (length-prefixed literals, 0xc0 = next argument)"])
 add("e3_main", "", overlay="e3", desc="every path of main(): K3 exit status 2 <=> invalid command line (usage on stderr, nothing on stdout, nothing translated), exit(1) <=> one 'xt error' message naming the input the failure belongs to, 0 <=> all translated and flushed, MessagePack never to a terminal; K4 source format = -f, else extension, else detection, stdin at most once, mmap => slice; K5 every finished input is flushed explicitly before anything else can fail; K6 translator writes through pipecheck::Writer(BufWriter(stdout.lock()))",
     bounds="<= 3 inputs (thorough: 4); all outcomes of parse_args / open / mmap / translate / flush / is_terminal", functions=K_FUN,
     props=["C13", "C14", "C15", "C16", "C04"], timeout=1800, mem_gb=6, assumptions=K_ASM)
